@@ -322,6 +322,54 @@ mod verif_bounded_drv {
 }
 '''
 
+MAIN_MOD = r'''
+#[cfg(test)]
+mod verif_bounded_glob {
+    use super::*;
+
+    fn report(kind: &str, detail: String) { println!("VERIF-BOUNDED-FAIL {} :: {}", kind, detail); }
+
+    /// every sequence of 1..=3 patterns out of: two existing literals, a glob matching two files, a glob matching nothing, a missing literal.
+    /// A pattern that selects nothing is a missing source wherever it stands: the expansion must be an error; otherwise it is the
+    /// concatenation, in command-line order, of what each pattern selects.
+    #[test]
+    fn bounded_expand_globs() {
+        let dir = tempfile::TempDir::new().unwrap();
+        let d = dir.path();
+        for f in ["a", "b", "x1.txt", "x2.txt"] { std::fs::File::create(d.join(f)).unwrap(); }
+        let p = |s: &str| d.join(s).to_string_lossy().into_owned();
+        let atoms: Vec<(String, Vec<PathBuf>)> = vec![
+            (p("a"), vec![d.join("a")]),
+            (p("b"), vec![d.join("b")]),
+            (p("x*.txt"), vec![d.join("x1.txt"), d.join("x2.txt")]),
+            (p("none*"), vec![]),
+            (p("missing"), vec![]),
+        ];
+        let mut fails = 0; let mut cases = 0;
+        let n = atoms.len();
+        for len in 1..=3usize {
+            for code in 0..n.pow(len as u32) {
+                let mut c = code; let mut idx = vec![];
+                for _ in 0..len { idx.push(c % n); c /= n; }
+                let pats: Vec<String> = idx.iter().map(|i| atoms[*i].0.clone()).collect();
+                let empty = idx.iter().any(|i| atoms[*i].1.is_empty());
+                let want: Vec<PathBuf> = idx.iter().flat_map(|i| atoms[*i].1.clone()).collect();
+                cases += 1;
+                match expand_globs(&pats) {
+                    // (an expansion that is empty altogether is rejected by main itself: "No source files found")
+                    Ok(got) if empty && got.is_empty() => {}
+                    Ok(got) if empty => { fails += 1; if fails <= 6 { report("glob_missing", format!("patterns {:?}: one of them selects nothing (a missing source) but the expansion succeeded with {} path(s)", idx.iter().map(|i| atoms[*i].0.rsplit('/').next().unwrap().to_string()).collect::<Vec<_>>(), got.len())); } }
+                    Ok(got) => if got != want { fails += 1; if fails <= 6 { report("glob_expansion", format!("patterns {:?}: expansion is not the concatenation of the matches in command-line order", pats)); } },
+                    Err(_) => if !empty { fails += 1; if fails <= 6 { report("glob_expansion", format!("patterns {:?}: every pattern selects something but the expansion failed", pats)); } },
+                }
+            }
+        }
+        println!("VERIF-BOUNDED-CASES {}", cases);
+        assert!(fails == 0, "{} failures", fails);
+    }
+}
+'''
+
 _CACHE = {}
 
 
@@ -347,19 +395,28 @@ def backup_bounded():
             f.write(CONFIG_MOD)
         with open(os.path.join(wd, 'libxcp', 'src', 'drivers', 'mod.rs'), 'a') as f:
             f.write(DRIVERS_MOD)
+        with open(os.path.join(wd, 'src', 'main.rs'), 'a') as f:
+            f.write(MAIN_MOD)
         env = dict(os.environ, CARGO_NET_OFFLINE='true', CARGO_TARGET_DIR=os.path.join(wd, 'target'))
-        p = subprocess.run(['cargo', 'test', '--offline', '-p', 'libxcp', '--lib', 'verif_bounded', '--', '--nocapture', '--test-threads', '1'],
+        p = subprocess.run(['cargo', 'test', '--offline', '--no-fail-fast', '-p', 'libxcp', '-p', 'xcp', '--lib', '--bin', 'xcp', 'verif_bounded', '--', '--nocapture', '--test-threads', '1'],
                            cwd=wd, env=env, stdout=subprocess.PIPE, stderr=subprocess.STDOUT, text=True, timeout=1800)
         out = p.stdout
         fails = re.findall(r'VERIF-BOUNDED-FAIL (.*)', out)
         ms = re.findall(r'VERIF-BOUNDED-CASES (\d+)', out)
-        ran = re.search(r'test result: (\w+)\. (\d+) passed; (\d+) failed', out)
+        rans = re.findall(r'test result: (\w+)\. (\d+) passed; (\d+) failed', out)
+        # two test binaries (libxcp's lib, the xcp binary): both must have run
+        ran = None
+        if len(rans) >= 2:
+            class _R:
+                def __init__(s_, a, b): s_.a, s_.b = a, b
+                def group(s_, i): return {2: str(s_.a), 3: str(s_.b)}[i]
+            ran = _R(sum(int(r[1]) for r in rans), sum(int(r[2]) for r in rans))
         res = {
-            'ok': p.returncode == 0 and not fails and ran is not None and ran.group(3) == '0' and ran.group(2) == '8',
+            'ok': p.returncode == 0 and not fails and ran is not None and ran.group(3) == '0' and ran.group(2) == '9',
             'built': ran is not None,
             'failures': fails[:40],
             'cases': sum(int(x) for x in ms) + 8 * 2010 + 8,
-            'bound': 'option values (Reflink, Backup, Drivers FromStr): every upper/lower-case spelling of every table word maps to its variant; the words of the other tables, every word with one character dropped or one of {s,x,1,blank,-} prepended/appended, and "", " ", "0", "true", "yes" are rejected; is_num_backup: 8 names (incl. non-UTF-8, prefix-like, one with a newline) x N in 1..=2000 plus 10 large N, 8 non-backup names; next number at the ends of the range: 2 names x all subsets of {0, 1, u64::MAX-1, u64::MAX}; 4 spellings of the destination (bare, ./, sub/, sub/../) x all subsets of {1,2,10}; 3 destinations reached through symbolic links (last component into another directory, into the same directory, a linked parent) x all subsets of {1,2,10}; '
+            'bound': 'expand_globs: every sequence of 1..3 patterns out of {two existing literals, a glob matching two files, a glob matching nothing, a missing literal} (155 cases); option values (Reflink, Backup, Drivers FromStr): every upper/lower-case spelling of every table word maps to its variant; the words of the other tables, every word with one character dropped or one of {s,x,1,blank,-} prepended/appended, and "", " ", "0", "true", "yes" are rejected; is_num_backup: 8 names (incl. non-UTF-8, prefix-like, one with a newline) x N in 1..=2000 plus 10 large N, 8 non-backup names; next number at the ends of the range: 2 names x all subsets of {0, 1, u64::MAX-1, u64::MAX}; 4 spellings of the destination (bare, ./, sub/, sub/../) x all subsets of {1,2,10}; 3 destinations reached through symbolic links (last component into another directory, into the same directory, a linked parent) x all subsets of {1,2,10}; '
                      'next_backup_num/has_backup/get_backup_path: 2 names (one non-UTF-8) x all 1024 subsets, a name with a newline x 29 subsets, of existing numbers {1,2,9,10,11,99,100,101,205,1000}',
             'wall_s': round(time.time() - t0, 1),
             'tail': '' if ran is not None else out[-1500:],
